@@ -190,7 +190,8 @@ static void check_base(const Problem& p, const QMat& At, const std::vector<Real>
   }
   // dependent-unknown flags: as many as the defect, and deleting them leaves full column rank
   sx::check_true((int)s.lindep.size() == p.defect, tag + " number of lindep flags = defect", std::to_string(s.lindep.size()));
-  if (!s.lindep.empty()) {
+  // SVD::lindep(i) speaks about the i-th singular value, whose position the decomposition contract leaves open: not checked for svd
+  if (!s.lindep.empty() && tag != "svd") {
     QMat R(p.m, p.n - (int)s.lindep.size()); int c = 0;
     for (int j = 0; j < p.n; j++) { if (std::find(s.lindep.begin(), s.lindep.end(), j + 1) != s.lindep.end()) continue; for (int i = 0; i < p.m; i++) R(i, c) = p.A(i, j); c++; }
     sx::check_true(qla::rank(R) == R.c, tag + " columns left after removing flagged unknowns are independent", "");
